@@ -70,6 +70,7 @@ cdef class QueryScheduler:
     cdef public dict _next_scheduled_for_alias
     cdef public list _query_heap
     cdef object _next_run
+    cdef double _next_run_not_before_millis
     cdef double _clock_resolution_millis
     cdef object _question_type
 
